@@ -250,7 +250,7 @@ theorem rainPartition_cnadj_factors (p : α) (cells : List (Cell α)) (daySub : 
 is used: without the antecedent-moisture adjustment the split is the SCS split at `Soil.cn` -/
 theorem rainPartition_cnadj_zero (p : α) (cells : List (Cell α)) (daySub : Nat) (zBund soilCN zCN : α) :
     rainPartition F p cells daySub false false zBund 0 soilCN false zCN =
-      some { runoff := (scsSplit p soilCN).1, infl := (scsSplit p soilCN).2, daySub := 0,
+      some { runoff := (scsSplit F p soilCN).1, infl := (scsSplit F p soilCN).2, daySub := 0,
              cn := soilCN } := by
   unfold rainPartition
   simp
